@@ -9,6 +9,11 @@ functions over the two declared bounds, so that the C19 theorems are re-checked 
   setFullAt  b1 b2   the size at which SET.add refuses an absent value   (same form)
   listLoIndex / bagLoIndex / setLoIndex   what get_loindex reports       (`return INTEGER(<int>)`)
 
+  elementBaseCmp     how check_type (TypeChecker.py) compares the base type of an aggregate element with the base type of the
+                     expected aggregate type: `identity` (`a.get_type() == b.get_type()`: classes by equality, aggregate
+                     objects by identity), `structural` (a helper that recurses through get_type() and compares the
+                     aggregate class at every level), `structuralNoKind` (recursion without comparing the class)
+
 Supported expression forms: integer literals, bound_1/bound_2 (local or self._bound_N), + - *, unary -, parentheses.
 Anything else raises = broken tie.
 """
@@ -68,7 +73,75 @@ def _int_call_arg(fn, what):
     raise ValueError(f"{what}: return INTEGER(<expr>) not found")
 
 
+TC = "src/exp2python/python/stepcode/TypeChecker.py"
+
+
+def _is_get_type_call(e, who):
+    return (isinstance(e, ast.Call) and not e.args and isinstance(e.func, ast.Attribute) and e.func.attr == "get_type"
+            and isinstance(e.func.value, ast.Name) and e.func.value.id == who)
+
+
+def _is_agg_test(e, name):
+    """isinstance(<name>, BaseType.Aggregate)"""
+    return (isinstance(e, ast.Call) and isinstance(e.func, ast.Name) and e.func.id == "isinstance" and len(e.args) == 2
+            and isinstance(e.args[0], ast.Name) and e.args[0].id == name and ast.unparse(e.args[1]).endswith("Aggregate"))
+
+
+def _helper_mode(fn):
+    """a recursive comparison helper f(a, b): -> 'structural' | 'structuralNoKind'"""
+    a, b = [x.arg for x in fn.args.args]
+    body = [n for n in fn.body if not (isinstance(n, ast.Expr) and isinstance(n.value, ast.Constant))]
+    if len(body) != 2 or not isinstance(body[0], ast.If) or not isinstance(body[1], ast.Return):
+        raise ValueError(f"{fn.name}: unsupported shape")
+    t = body[0].test
+    if not (isinstance(t, ast.BoolOp) and isinstance(t.op, ast.And) and len(t.values) == 2
+            and _is_agg_test(t.values[0], a) and _is_agg_test(t.values[1], b)):
+        raise ValueError(f"{fn.name}: unsupported test")
+    last = body[1].value
+    if not (isinstance(last, ast.Compare) and len(last.ops) == 1 and isinstance(last.ops[0], ast.Eq)
+            and ast.unparse(last.left) == a and ast.unparse(last.comparators[0]) == b):
+        raise ValueError(f"{fn.name}: final comparison is not `{a} == {b}`")
+    if len(body[0].body) != 1 or not isinstance(body[0].body[0], ast.Return) or body[0].orelse:
+        raise ValueError(f"{fn.name}: unsupported recursive case")
+    r = body[0].body[0].value
+
+    def is_rec(e):
+        return (isinstance(e, ast.Call) and isinstance(e.func, ast.Name) and e.func.id == fn.name and len(e.args) == 2
+                and _is_get_type_call(e.args[0], a) and _is_get_type_call(e.args[1], b))
+    if is_rec(r):
+        return "structuralNoKind"
+    if isinstance(r, ast.BoolOp) and isinstance(r.op, ast.And) and len(r.values) == 2 and is_rec(r.values[1]):
+        k = ast.unparse(r.values[0]).replace(" ", "")
+        if k in (f"type({a})==type({b})", f"type({a})istype({b})", f"type({b})==type({a})", f"type({b})istype({a})"):
+            return "structural"
+    raise ValueError(f"{fn.name}: unsupported recursive case {ast.unparse(r)}")
+
+
+def _cmp_mode(repo):
+    tree = ast.parse(open(os.path.join(repo, TC)).read())
+    fns = {n.name: n for n in tree.body if isinstance(n, ast.FunctionDef)}
+    if "check_type" not in fns:
+        raise ValueError("check_type not found")
+    found = []
+    for n in ast.walk(fns["check_type"]):
+        # `not (<cmp>)` where <cmp> involves instance.get_type() and expected_type.get_type()
+        if isinstance(n, ast.UnaryOp) and isinstance(n.op, ast.Not):
+            e = n.operand
+            if isinstance(e, ast.Compare) and len(e.ops) == 1 and isinstance(e.ops[0], ast.Eq) \
+                    and _is_get_type_call(e.left, "instance") and _is_get_type_call(e.comparators[0], "expected_type"):
+                found.append("identity")
+            elif isinstance(e, ast.Call) and isinstance(e.func, ast.Name) and len(e.args) == 2 \
+                    and _is_get_type_call(e.args[0], "instance") and _is_get_type_call(e.args[1], "expected_type"):
+                if e.func.id not in fns:
+                    raise ValueError(f"check_type: helper {e.func.id} not found")
+                found.append(_helper_mode(fns[e.func.id]))
+    if len(found) != 1:
+        raise ValueError(f"check_type: expected exactly one base-type comparison of an aggregate element, found {len(found)}")
+    return found[0]
+
+
 def extract(repo):
+    mode = _cmp_mode(repo)
     src = open(os.path.join(repo, REL)).read()
     tree = ast.parse(src)
     cls = {n.name: n for n in tree.body if isinstance(n, ast.ClassDef)}
@@ -107,6 +180,11 @@ def setFullGe : Bool := {"true" if set_cmp == "GtE" else "false"}
 def listLoIndex : Int := {lo["LIST"]}
 def bagLoIndex : Int := {lo["BAG"]}
 def setLoIndex : Int := {lo["SET"]}
+
+/-- how `check_type` compares the base type of an aggregate element with the expected base type ({TC}) -/
+inductive BaseCmp | identity | structural | structuralNoKind
+  deriving DecidableEq, Repr
+def elementBaseCmp : BaseCmp := .{mode}
 
 end StepModel.Generated
 """
